@@ -189,7 +189,27 @@ def eval_case(case):
     return msgs
 
 
+CPUID_PROFILES = {}
+
+
+def cpuid_profiles():
+    """engine E over the CPU's answer to CPUID: the unmodified library is loaded under each of the four (BMI2, ADX) combinations
+    (harness/cpuid_env.cpp, CPUID faulting); returns (lines, unavailable reason or None)"""
+    so = build.build("asm")
+    exe = build.build_exe("asm", "cpuid_env", ["cpuid_env.cpp"], link_lib=False, extra_link=["-ldl"])
+    nm = subprocess.run(["nm", "-D", so], stdout=subprocess.PIPE, text=True).stdout
+    syms = sorted({l.split()[-1] for l in nm.splitlines() if "runtime_" in l and len(l.split()) == 3 and l.split()[1] in "BDbd"})
+    p = subprocess.run([exe, so] + syms, stdout=subprocess.PIPE, stderr=subprocess.PIPE, text=True, timeout=120)
+    lines = [l for l in p.stdout.splitlines() if l.startswith("PROFILE")]
+    if "UNAVAILABLE" in p.stdout or not lines:
+        return [], (p.stdout + p.stderr).strip()[:200] or "no output"
+    return lines, None
+
+
 def eval_dispatch():
+    """Safety of the run-time selection: a routine that needs BMI2 and ADX may only be selected when the CPU reports both (otherwise the
+    first field multiplication raises SIGILL instead of computing what the other back ends compute).  Which back end is selected when
+    both are present is the library's choice (all back ends compute the same function) and is not judged."""
     L = ffi.lib("asm")
     flags = ""
     with open("/proc/cpuinfo") as fh:
@@ -197,15 +217,31 @@ def eval_dispatch():
             if line.startswith("flags"):
                 flags = line
                 break
-    want = 1 if (" bmi2" in flags and " adx" in flags) else 0
+    both = 1 if (" bmi2" in flags and " adx" in flags) else 0
     msgs = []
-    if L.f("vk_cpu_bmi2_adx")() != want:
-        msgs.append("cpu_supports_bmi2_adx() = %d but /proc/cpuinfo says %d" % (L.f("vk_cpu_bmi2_adx")(), want))
+    if L.f("vk_cpu_bmi2_adx")() and not both:
+        msgs.append("cpu_supports_bmi2_adx() = 1 but /proc/cpuinfo does not list bmi2 and adx")
     # a fresh process: the selection made by the static initialiser
     code = "import sys; sys.path.insert(0, %r); from vlib import ffi; print(ffi.lib('asm').f('vk_dispatch')(-1))" % build.VERIF
     out = subprocess.run(["python3", "-c", code], stdout=subprocess.PIPE, text=True, env=dict(os.environ)).stdout.strip()
-    if out != str(want):
-        msgs.append("load-time dispatch selected %s, expected %d" % (out, want))
+    if out == "1" and not both:
+        msgs.append("load-time dispatch selected the BMI2/ADX routines on a CPU without both features")
+    CPUID_PROFILES.clear()
+    lines, unavailable = cpuid_profiles()
+    if unavailable:
+        CPUID_PROFILES["unavailable"] = unavailable
+    for line in lines:
+        f = dict(kv.split("=", 1) for kv in line.split()[1:] if "=" in kv)
+        if "CHILD-FAILED" in line:
+            msgs.append("loading the library under the CPUID profile bmi2=%s adx=%s failed: %s" % (f.get("bmi2"), f.get("adx"), line))
+            continue
+        has_both = f.get("bmi2") == "1" and f.get("adx") == "1"
+        CPUID_PROFILES["bmi2=%s adx=%s" % (f.get("bmi2"), f.get("adx"))] = {k: v for k, v in f.items() if k not in ("bmi2", "adx")}
+        if f.get("probe") == "1" and not has_both:
+            msgs.append("CPUID profile bmi2=%s adx=%s: cpu_supports_bmi2_adx() returns 1" % (f["bmi2"], f["adx"]))
+        for k, v in f.items():
+            if v == "bmi2_adx" and not has_both:
+                msgs.append("CPUID profile bmi2=%s adx=%s: %s selects the BMI2/ADX routine" % (f["bmi2"], f["adx"], k))
     return msgs
 
 
@@ -247,6 +283,8 @@ def run_shard(ctx, shard):
     if sub == "dispatch":
         msgs = eval_dispatch()
         ctx.ok(True, "dispatch")
+        for k in CPUID_PROFILES:
+            ctx.ok(True, "dispatch:cpuid-profile:" + ("unavailable" if k == "unavailable" else k))
         if msgs:
             ctx.fail({"sub": "dispatch"}, "; ".join(msgs), sig="dispatch")
         return
